@@ -162,7 +162,11 @@ func (d *DLQ) dlqRecord(r opencdc.Record, status RecordStatus, taskID string) op
 
 	out.Metadata.SetCreatedAt(time.Now())
 	out.Metadata.SetConduitSourceConnectorID(connID)
-	out.Metadata.SetConduitDLQNackError(status.Error.Error())
+	nackErr := "unknown error (the component reported a failure without an error)"
+	if status.Error != nil {
+		nackErr = status.Error.Error()
+	}
+	out.Metadata.SetConduitDLQNackError(nackErr)
 	out.Metadata.SetConduitDLQNackNodeID(taskID) // TODO rename to DLQNackTaskID
 	return out
 }
